@@ -401,7 +401,7 @@ Print Assumptions model_passes_judgement.
 Theorem prop_ok_router_meaning : forall c,
   r_prop_ok c = true <->
   (one_var_name_per_position (table_of (cregs c)) = true ->
-   cregobs c = reg_results [] (cregs c) /\
+   map accepted (cregobs c) = map accepted (reg_results [] (cregs c)) /\
    Forall (req_judged (table_of (cregs c)) (cnf c) (cna c)) (creqs c)).
 Proof. exact L_r_prop_ok_iff. Qed.
 Print Assumptions prop_ok_router_meaning.
@@ -412,7 +412,6 @@ Theorem server_model_passes_judgement : forall s q r,
   start_of (wstarts (run opt_real (scfgs s) (stables s) (sevents s))) (sqs q) = Some (Started r) ->
   let c := nth (sqs q) (scfgs s) default_cfg in
   In (sqres q) (sserve_allowed (sc_cors c) r (sqm q) (sqp q)) ->
-  mws_ok c q = true ->
   sreq_ok s q = true.
 Proof. exact L_server_model_passes. Qed.
 Print Assumptions server_model_passes_judgement.
@@ -423,8 +422,7 @@ Theorem server_judgement_means : forall s q segs resp,
   sc_cors c = false -> sqres q = SResp resp -> clean_path (sqp q) = Some segs ->
   sreq_ok s q = true ->
   all_ok (reg_results [] (user_regs s (sqs q))) /\
-  obs_ok (table_of (user_regs s (sqs q))) (sc_nf c) (sc_na c) (sqm q) segs resp /\
-  mws_ok c q = true.
+  obs_ok (table_of (user_regs s (sqs q))) (sc_nf c) (sc_na c) (sqm q) segs resp.
 Proof. exact L_server_judgement_means. Qed.
 Print Assumptions server_judgement_means.
 
